@@ -125,10 +125,20 @@ class MinimizeActionCosts(PlanQualityMetric):
         return f"minimize actions-cost: {costs}"
 
     def __eq__(self, other):
-        return (
-            isinstance(other, MinimizeActionCosts)
-            and self._default == other._default
-            and self._costs == other._costs
+        if (
+            not isinstance(other, MinimizeActionCosts)
+            or self._default != other._default
+            or len(self._costs) != len(other._costs)
+        ):
+            return False
+        if self._costs == other._costs:
+            return True
+        # the hash of an Action changes when the action is modified after the metric
+        # was created: compare the (action, cost) pairs without relying on it
+        oth_items = list(other._costs.items())
+        return all(
+            any(a == oa and c == oc for oa, oc in oth_items)
+            for a, c in self._costs.items()
         )
 
     def __hash__(self):
@@ -156,7 +166,15 @@ class MinimizeActionCosts(PlanQualityMetric):
             raise UPUsageError(
                 f"An `Action` was expected for this method, got {action}!"
             )
-        return self._costs.get(action, self._default)
+        cost = self._costs.get(action, None)
+        if cost is None:
+            # an action modified after the creation of the metric is not found by its
+            # (changed) hash: look it up by identity/equality before using the default
+            for a, c in self._costs.items():
+                if a is action or a == action:
+                    return c
+            return self._default
+        return cost
 
     @staticmethod
     def is_minimize_action_costs():
